@@ -35,26 +35,26 @@ def chk(pid, engine, text, note, technique, design_ref):
 
 TB = "Trusted base: the simulator's seams (virtual clock, seeded PRNG, Z3 rlimit budget/unknown injection, cost-order strategies), the independent oracles under /verif/oracles, CPython, real Z3 for ground atoms. Sampling, not enumeration: a clean batch is evidence, not proof."
 CHECKS = [
- chk("C01", "solversim", "Seeded search over simulated solver runs: 1-3 ISLaSolver objects interleaved, every solve() result judged by an independent grammar model + independent ISLa-semantics evaluator, under adversarial PRNG strategies, arbitrary processing orders of queued states (cost-computer seam), virtual-clock faults and Z3 unknown/starvation faults placed at seam indices inside operations. Soundness of a returned solution is never relaxed under faults.", TB, "deterministic simulation with fault injection (seeded schedules + clock/Z3/PRNG faults), reference-model oracle per returned solution", "DESIGN.md 5 C01"),
- chk("C02", "solversim", "Same executions; history oracle over each solver's recorded solve() call sequence: outcome in {tree, StopIteration, TimeoutError}, TimeoutError only with a configured timeout, sticky after the first terminal exception (re-probed after clock steps forward/backward, heals and calls on other solvers). Escaping exceptions are identified by call-site signature so that known findings do not mask new ones.", TB, "deterministic simulation with fault injection; history oracle over recorded call sequences", "DESIGN.md 5 C02"),
+ chk("C01", "solversim", "Seeded search over simulated solver runs: 1-3 ISLaSolver objects interleaved (plus solver copies made by copy_without_queue with another constraint / another grammar, and solvers with a requested start symbol), every solve() result judged by an independent grammar model + independent ISLa-semantics evaluator, under adversarial PRNG strategies, arbitrary processing orders of queued states (cost-computer seam), virtual-clock faults and Z3 unknown / starvation / stalled-query faults placed at seam indices inside operations. Soundness of a returned solution is never relaxed under faults.", TB, "deterministic simulation with fault injection (seeded schedules + clock/Z3/PRNG faults), reference-model oracle per returned solution", "DESIGN.md 5 C01"),
+ chk("C02", "solversim", "Same executions; history oracle over each solver's recorded solve() call sequence: outcome in {tree, StopIteration, TimeoutError}, TimeoutError only with a configured timeout, sticky after the first terminal exception (re-probed after clock steps forward/backward, heals and calls on other solvers; timeouts 0..60 s, arbitrary origin of the monotonic clock, time passing inside single Z3 queries). Escaping exceptions are identified by call-site signature so that known findings do not mask new ones.", TB, "deterministic simulation with fault injection; history oracle over recorded call sequences", "DESIGN.md 5 C02"),
  chk("C12", "choicesim+solversim", "The PRNG is the nondeterminism the property quantifies over ('for every random choice'): fuzzer expand_tree on pruned open trees and Mutator.mutate on closed trees are driven under uniform and adversarial choice strategies (always first/last, alternate, biased) with an independent grammar model as oracle; plus a monitor on every fuzzer.expand_tree call the solver makes in simulated runs.", TB, "deterministic simulation: seeded adversarial random-choice strategies behind the PRNG seam + seam monitors in simulated solver runs", "DESIGN.md 5 C12"),
  chk("C14", "choicesim+solversim", "create_fixed_length_tree, numeric model-value extraction and count completion are judged (valid tree for the nonterminal, exact length / value / count, no open leaf that can still produce the needle) both when driven directly under PRNG strategies and at the three seams inside simulated solver steps (where their inputs come from Z3 models and partial solver states).", TB, "deterministic simulation: PRNG-strategy driven helpers + seam monitors inside simulated solver runs", "DESIGN.md 5 C14"),
- chk("C16", "treesim", "Hypothesis stateful histories of public tree operations interleaved with cache-touching observers on a pool of trees that share process-global lru_caches, checked after every step against an immutable reference model (string, openness, paths, node search, trie view incl. sub-tries and fan-out 27-40, structural hash / equality, operand immutability).", TB, "deterministic simulation of operation histories (seeded stateful machine, shrinking, scripted replay) against a reference model", "DESIGN.md 5 C16"),
- chk("C17", "treesim", "Same machine with serialisations (pickle, to_json/from_json, deepcopy, CLI JSON) injected at arbitrary points of the history: decoded tree equals the model and behaves like the original under every observer; every observer of the original returns what it returned before; SMTFormula pickling with adversarial string literals.", TB, "deterministic simulation of operation histories with serialisation events, reference model + before/after observer snapshots", "DESIGN.md 5 C17"),
- chk("C18", "solversim", "check / parse / repair / mutate operations interleaved with solve() on valid (oracle-verified solver outputs), syntactically invalid (character edits, decided by an own Earley recogniser) and semantically invalid inputs, under the same clock / Z3 / PRNG / order faults (repair and mutate run nested solvers with 0.5-3 s timeouts on the virtual clock). UnknownResultError is accepted only when a Z3 query inside that call was not decided.", TB, "deterministic simulation with fault injection; reference-model oracle per API call", "DESIGN.md 5 C18"),
+ chk("C16", "treesim", "Hypothesis stateful histories of public tree operations interleaved with cache-touching observers on a pool of trees that share process-global lru_caches, checked after every step against an immutable reference model (string, openness, paths, node search, trie view incl. sub-tries and fan-out 27-120 and 728-758, structural hash / equality, operand immutability); at the end of every run seed the pool is made durable and judged in a fresh interpreter with another hash seed (process restart).", TB, "deterministic simulation of operation histories (seeded stateful machine, shrinking, scripted replay) against a reference model", "DESIGN.md 5 C16"),
+ chk("C17", "treesim", "Same machine with serialisations (pickle, to_json/from_json, deepcopy, CLI JSON) injected at arbitrary points of the history: decoded tree equals the model and behaves like the original under every observer; every observer of the original returns what it returned before; SMTFormula pickling with adversarial string literals; process restart: pickled / JSON-encoded pool decoded and judged in a fresh interpreter with another PYTHONHASHSEED (equality, hashes, id allocation, further operations).", TB, "deterministic simulation of operation histories with serialisation events, reference model + before/after observer snapshots", "DESIGN.md 5 C17"),
+ chk("C18", "solversim", "check / parse / repair / mutate operations interleaved with solve() on valid (oracle-verified solver outputs), syntactically invalid (character edits, decided by an own Earley recogniser) and semantically invalid inputs (incl. words derived by the harness itself), on single solvers and on solver families made by copy_without_queue that share accepted inputs, under the same clock / Z3 / PRNG / order faults (repair and mutate run nested solvers with 0.5-3 s timeouts on the virtual clock). UnknownResultError is accepted only when a Z3 query inside that call was not decided.", TB, "deterministic simulation with fault injection; reference-model oracle per API call", "DESIGN.md 5 C18"),
 ]
 ENGINES = [
  {"name": "solversim", "path": "engines/solversim.py", "serves_properties": ["C01", "C02", "C18", "C12", "C14"], "kind_free_text": "fork-per-run simulation of ISLaSolver objects under virtual clock, seeded PRNG, Z3 seam and cost-order seam; two-phase fault placement"},
  {"name": "choicesim", "path": "engines/choicesim.py", "serves_properties": ["C12", "C14"], "kind_free_text": "PRNG-strategy driven fuzzer / mutator / build-to-target helpers"},
- {"name": "treesim", "path": "engines/treesim.py", "serves_properties": ["C16", "C17"], "kind_free_text": "Hypothesis stateful operation histories on DerivationTree/SMTFormula against a reference model"},
+ {"name": "treesim", "path": "engines/treesim.py", "serves_properties": ["C16", "C17"], "kind_free_text": "Hypothesis stateful operation histories on DerivationTree/SMTFormula against a reference model; process-restart stage in a fresh interpreter (engines/treechild.py)"},
 ]
 
 CHECKS += [
- chk("C19", "clisim", "The isla command line in-process inside a per-run sandbox directory under the clock / PRNG / Z3 seams and a storage-fault layer that damages files between the write and the command that reads them (empty, torn, lost, directory, garbage bytes, NUL, BOM, CRLF, extra newlines, duplicate input). Oracle over the recorded command history on the bytes actually on disk: check/parse/find exit codes against Oracle-G/S, every solve output is in the language, satisfies the conjunction of all constraints and is accepted by a following check, parse output accepted by check, malformed-by-construction specs -> 65 + message, usage errors -> 2, any exception escaping main other than SystemExit is a traceback.", TB + " The process boundary is stubbed (in-process main).", "deterministic simulation with fault injection (storage, Z3, clock faults between/inside CLI commands), history oracle over recorded command sessions", "DESIGN.md 5 C19"),
- chk("C22", "reprosim", "For a scenario, hash seed and random seed, 2-3 fresh interpreters run the user's program (random.seed; ISLaSolver; solve() k times), each under a different perturbation schedule of what must not matter (heap ballast shifting every address/id, GC mode, import order, epoch, cwd/HOME/COLUMNS/argv) with ASLR off so that a mismatch is itself reproducible; the same deterministic Z3 budget and optional Z3-unknown schedule apply to all children. Verdict: identical sequences of (string, tree shape).", TB + " Z3 wall-clock timeouts are replaced by the rlimit budget in every child.", "deterministic simulation: seeded perturbation schedules over fresh interpreters, sequence-equality oracle", "DESIGN.md 5 C22"),
+ chk("C19", "clisim", "The isla command line in-process inside a per-run sandbox directory under the clock / PRNG / Z3 seams and a storage-fault layer that damages files between the write and the command that reads them (empty, torn, lost, directory, garbage bytes, NUL, BOM, CRLF, extra newlines, duplicate input). Oracle over the recorded command history on the bytes actually on disk: check/parse/find exit codes against Oracle-G/S, every solve output is in the language, satisfies the conjunction of all constraints and is accepted by a following check, parse output accepted by check, malformed-by-construction specs -> 65 + message, usage errors -> 2, any exception escaping main other than SystemExit is a traceback (also for isla fuzz with tiny real test targets).", TB + " The process boundary is stubbed (in-process main).", "deterministic simulation with fault injection (storage, Z3, clock faults between/inside CLI commands), history oracle over recorded command sessions", "DESIGN.md 5 C19"),
+ chk("C22", "reprosim", "For a scenario, hash seed and random seed, 2-3 fresh interpreters run the user's program (random.seed; ISLaSolver; solve() k times), each under a different perturbation schedule of what must not matter (heap ballast shifting every address/id, GC mode, import order, epoch, clock speed and stalls between solve() calls with no timeout configured, cwd/HOME/COLUMNS/argv) with ASLR off so that a mismatch is itself reproducible; the same deterministic Z3 budget and optional Z3-unknown schedule apply to all children. Verdict: identical sequences of (string, tree shape).", TB + " Z3 wall-clock timeouts are replaced by the rlimit budget in every child.", "deterministic simulation: seeded perturbation schedules over fresh interpreters, sequence-equality oracle", "DESIGN.md 5 C22"),
 ]
 CHECKS += [
- chk("C21", "formsim", "Simulated solver runs on the shipped formalizations (CSV, XML, reST, simple TAR: shipped grammar + shipped constraint set or a sub-conjunction) with the repository's own settings as centre and per-run variation of PRNG seed/strategy, cost weights and k, cost-order strategy, fuzzer kind and instantiation limits; half of the run seeds are re-executed with Z3 / clock faults placed inside the run. Every returned solution is judged by the independent grammar model and an independent domain validator (own CSV field splitting, expat + own namespace/attribute rules, docutils system messages + own underline/link/numbering rules, own TAR checksum/field layout).", TB + " The domain validators demand exactly what the shipped constraints formalize; solver exceptions in these runs are C02's business and counted as inconclusive.", "deterministic simulation: seeded schedules and fault sequences over solver runs on the bundled formalizations, independent domain oracles", "DESIGN.md 5 C21"),
+ chk("C21", "formsim", "Simulated solver runs on the shipped formalizations (CSV, XML, reST, simple TAR: shipped grammar + shipped constraint set or a sub-conjunction) with three settings strata (the repository's own test settings, the library defaults, per-run variation) and PRNG seed/strategy, cost weights and k, cost-order strategy, fuzzer kind and instantiation limits; more than half of the run seeds are re-executed with Z3 (global or call-site specific outages, starvation, stalled queries) / clock faults placed inside the run. Every returned solution is judged by the independent grammar model and an independent domain validator (own CSV field splitting, expat + own namespace/attribute rules, docutils system messages + own underline/link/numbering rules, own TAR checksum/field layout).", TB + " The domain validators demand exactly what the shipped constraints formalize; solver exceptions in these runs are C02's business and counted as inconclusive.", "deterministic simulation: seeded schedules and fault sequences over solver runs on the bundled formalizations, independent domain oracles", "DESIGN.md 5 C21"),
 ]
 ENGINES += [
  {"name": "formsim", "path": "engines/formsim.py", "serves_properties": ["C21"], "kind_free_text": "simulated solver runs on the bundled formalizations judged by independent domain validators (oracles/domains.py)"},
